@@ -7,6 +7,7 @@ import ast
 
 from sa import effects
 from sa import model
+from sa import norm
 from sa import origins
 from sa import universe as unimod
 from sa.rules import c09
@@ -20,15 +21,50 @@ CONTEXT_WRITE_API = {'register_function', 'delete_function', '__setitem__',
                      '__delitem__', '__init__'}
 
 HOSTAPI_GLOBALS = {
-    ('yaql:eval', '_cached_engine'):
+    ('yaql', '_cached_engine'):
         'lazily initialised engine; value does not depend on the call',
-    ('yaql:eval', '_default_context'):
+    ('yaql', '_default_context'):
         'lazily initialised default context; value does not depend on the '
         'call; every call evaluates in its own child',
-    ('yaql:eval', '_cached_expressions'):
+    ('yaql', '_cached_expressions'):
         'memo keyed by the whole expression text (parse is a function of '
         'the text, C01)',
 }
+
+
+_callers_cache = {}
+
+
+def construction_only_methods(repo, ci):
+    """Methods of ci that run only as part of constructing an instance:
+    every call site `<x>.name(...)` in the repository is in __init__ of the
+    class or in another such method (helpers __init__ was split into)."""
+    if 'idx' not in _callers_cache:
+        idx = {}
+        for f in repo.all_functions():
+            for c in model.calls_in(f.node, shallow=True):
+                if isinstance(c.func, ast.Attribute):
+                    idx.setdefault(c.func.attr, []).append((f, c))
+                elif isinstance(c.func, ast.Name):
+                    idx.setdefault(c.func.id, []).append((f, c))
+        _callers_cache['idx'] = idx
+    idx = _callers_cache['idx']
+    ok = {'__init__'}
+    changed = True
+    while changed:
+        changed = False
+        for name, m in ci.methods.items():
+            if name in ok or name.startswith('__'):
+                continue
+            sites = idx.get(name, [])
+            if sites and all(
+                    f.cls is ci and f.name in ok and isinstance(
+                        c.func, ast.Attribute) and isinstance(
+                        c.func.value, ast.Name) and
+                    c.func.value.id == 'self' for f, c in sites):
+                ok.add(name)
+                changed = True
+    return ok
 
 
 def stateful_classes(repo, uni):
@@ -38,8 +74,9 @@ def stateful_classes(repo, uni):
         if ci.module.name in ('yaql.language.contexts',) or \
                 ci.module.name.startswith('yaql.cli'):
             continue
+        construct = construction_only_methods(repo, ci)
         for name, m in ci.methods.items():
-            if name == '__init__':
+            if name in construct:
                 continue
             if hasattr(uni, 'role') and uni.role(m) in (
                     'construction', 'hostapi', 'register', 'cli'):
@@ -92,8 +129,20 @@ def check_r18a(repo, rep, uni, local):
                     rep.ob('R18a', site, True, 'nonlocal cell of the '
                            'enclosing call', loc=loc, construct=construct)
                     continue
-                key = (fi.key, model.norm(w.target))
-                ok = key in HOSTAPI_GLOBALS
+                key = (fi.module.name, model.norm(w.target))
+                # listed lazily initialised globals: assigned only when
+                # still None, with a value that does not depend on the call
+                gname = model.norm(w.target)
+                lazy_init = norm.literal_polarity(
+                    w.node, fi.node, lambda e: isinstance(e, ast.Compare)
+                    and len(e.ops) == 1 and isinstance(e.ops[0], ast.Is) and
+                    model.norm(e.left) == gname and isinstance(
+                        e.comparators[0], ast.Constant) and
+                    e.comparators[0].value is None) is True
+                indep = w.value is None or not (
+                    {x.id for x in ast.walk(w.value)
+                     if isinstance(x, ast.Name)} & set(fi.params()))
+                ok = key in HOSTAPI_GLOBALS and lazy_init and indep
                 rep.ob('R18b', '%s/global[%s]' % (site,
                                                   model.norm(w.target)), ok,
                        ('listed: ' + HOSTAPI_GLOBALS[key]) if ok else
@@ -106,7 +155,7 @@ def check_r18a(repo, rep, uni, local):
             gl = [t for t in tags if t[0] == 'global']
             if gl:
                 n += 1
-                key = (fi.key, gl[0][1])
+                key = (fi.module.name, gl[0][1])
                 ok = key in HOSTAPI_GLOBALS and w.kind == 'subscript' and \
                     isinstance(w.key, ast.Name) and w.key.id in fi.params()
                 rep.ob('R18b', '%s/global-object[%s]' % (site, gl[0][1]), ok,
